@@ -35,23 +35,35 @@ inductive Kind where
   | getattr       -- proxy.attr
   | setattr       -- proxy.attr = tok
   | fetch         -- next(stream_iterator)      get_next_stream_item on the daemon object
+  | missing       -- proxy.meth(tok)            the proxy's metadata is stale: the object no longer has the method;
+                  --                            the daemon answers with an error reply before anything runs
+  | onewayMissing -- proxy.onewaymeth(tok)      the same for a oneway method: nothing runs, nothing is answered
   deriving DecidableEq, Repr
 
 /-- `flags & FLAGS_ONEWAY` on the request (client.py:244-245, 439-440). -/
 def Kind.isOneway : Kind → Bool
-  | .oneway | .batchOneway => true
+  | .oneway | .batchOneway | .onewayMissing => true
   | _ => false
+
+/-- the daemon finds the method and runs it (server.py:439-501); otherwise `_get_attribute` raises first and the
+    error path (515-528) reports it — unless the request is oneway -/
+def Kind.executes : Kind → Bool
+  | .missing | .onewayMissing => false
+  | _ => true
+
+/-- the server's execution log after it handled a request of kind `k` carrying `tok` -/
+def logAfter (k : Kind) (tok : Nat) (log : List Nat) : List Nat := if k.executes then tok :: log else log
 
 /-- The call goes through `_RemoteMethod.__call__` (client.py:107, 507-515), i.e. is retried.
     Attribute access (103, 116), batches (619) and stream fetches (539) call `_pyroInvoke` directly. -/
 def Kind.retried : Kind → Bool
-  | .normal | .raises | .stream | .oneway => true
+  | .normal | .raises | .stream | .oneway | .missing | .onewayMissing => true
   | _ => false
 
 /-- The call starts with an attribute lookup on the proxy (`__getattr__`/`__setattr__`), which fetches
     the metadata — by connecting, outside any retry loop — while none is known (client.py:100-101). -/
 def Kind.needsMeta : Kind → Bool
-  | .normal | .raises | .stream | .oneway | .getattr | .setattr => true
+  | .normal | .raises | .stream | .oneway | .getattr | .setattr | .missing | .onewayMissing => true
   | _ => false
 
 /-- `if self.proxy._pyroConnection is None: raise ConnectionClosedError` (client.py:535-536). -/
@@ -229,11 +241,12 @@ def invokeOn (cfg : Cfg) (k : Kind) (tok : Nat) (W : World) (c : Conn) (s : List
       let W1 := { W with seq := seq', sends := W.sends + 1, hist := none :: W.hist }
       (.failed .connClosed, failWith cfg W1 ⟨c.queue, true⟩, s')   -- 251 send raises
     else
-      -- server.py handleRequest: the method runs; the reply carries request_seq (509, 526); oneway: no reply (502-503)
+      -- server.py handleRequest: the method runs (or the lookup fails: error reply, 515-526); the reply carries
+      -- request_seq (509, 526); oneway: no reply (502-503, 521)
       let r : Msg := ⟨false, seq', k, tok, W.sends + 1⟩
       let reply : List Msg := if k.isOneway then [] else [r]
       let d := deliver ev W.hist (hsMsg W.seq) reply
-      let W1 := { W with seq := seq', sends := W.sends + 1, hist := reply.head? :: W.hist, log := tok :: W.log }
+      let W1 := { W with seq := seq', sends := W.sends + 1, hist := reply.head? :: W.hist, log := logAfter k tok W.log }
       let q := c.queue ++ d.now
       if k.isOneway then
         (.none_, { W1 with pc := .live ⟨q ++ d.later, d.dead⟩ }, s')          -- 253-254
